@@ -93,6 +93,12 @@ class _FieldOfDressed:
             ):
                 # the reference does not point to the dressed object anymore
                 delattr(container, "_dressed_" + self.name)
+            elif hasattr(container, "_dressed_" + self.name):
+                # the data of the field were rewritten (its dynamic parts may
+                # have moved): dress it again from the buffer
+                getattr(container, "_dressed_" + self.name)._reinit_from_xobject(
+                    _xobject=getattr(container._xobject, self.name)
+                )
 
 
 class JEncoder(json.JSONEncoder):
